@@ -143,7 +143,7 @@ fn forward_nest(
                 forall|a: int, b: int| 0 <= a < oh && 0 <= b < ow ==> #[trigger] y@[k as int]@[a]@[b] == f5(g, k as int, c as int, i as int, j as int, ki as int, __it1 as int, a, b, f4(g, k as int, c as int, i as int, j as int, ki as int, a, b, f3(g, k as int, c as int, i as int, j as int, a, b, f2(g, k as int, c as int, i as int, a, b, f1(g, k as int, c as int, a, b, 0.0f32))))), //@ob tconv.inv
             decreases kw - __it1,
     //@end
-    //@before /let oi = i \* self\.stride\.0 \+ ki;/
+    //@before /let oi = /
                                 broadcast use {f32_total};
                                 proof {
                                     f32_obeys();
